@@ -2,7 +2,7 @@
    Explain/Explain.v models _clingo_symbol_to_sentence and its helpers for atoms with at most one possible subject; it is tied to
    /repo by comparing, for every atom of every answer set of the stream, the model's sentence with the implementation's. *)
 Require Import Coq.Strings.String Coq.Strings.Ascii Coq.Lists.List Coq.Bool.Bool.
-Require Import Cnl2aspV.Asp.Syntax Cnl2aspV.Explain.Explain.
+Require Import Cnl2aspV.Asp.Syntax Cnl2aspV.Asp.Print Cnl2aspV.Explain.Explain Cnl2aspV.Explain.ExplainProofs.
 Import ListNotations.
 Open Scope string_scope.
 
@@ -23,3 +23,53 @@ Example C15_fact_example :
   sentence_of {| sg_entity := movie; sg_subjects := []; sg_verb := None; sg_objects := [] |} ["1"; """jurassicPark"""]
   = Sentence "There is movie with id equal to 1, with title equal to jurassicPark.".
 Proof. vm_compute. reflexivity. Qed.
+
+(* Python's str.strip() as the explanation code uses it: white space around a core that neither starts nor ends with white
+   space is removed and nothing else (every sentence passes through it twice) *)
+Theorem C15_strip_spec : forall a m b,
+  all_space a = true -> all_space b = true -> first_ok m = true -> last_ok m = true -> strip (a ++ m ++ b) = m.
+Proof. exact strip_spec. Qed.
+Print Assumptions C15_strip_spec.
+
+(* Facts of a declared concept (no subject, verb or objects), any number of keys and attributes, any argument values that are
+   non-empty and free of white space and commas: the sentence is 'There is <concept> <value>.' for one argument and
+   'There is <concept> with <attribute> equal to <value>, with ... .' otherwise -- it names the concept and every value, in
+   argument order. *)
+Theorem C15_fact_sentence_closed_form_partial : forall e args,
+  name_ok (on_name (xe_name e)) = true ->
+  xe_all (parse_symbol e args) <> [] ->
+  Forall (fun a => value_ok (x_value a) = true) (xe_all (parse_symbol e args)) ->
+  sentence_of (fact_sig e) args =
+  Sentence ("There is " ++ replace_underscore (on_name (xe_name e)) ++ " " ++
+            fact_body (on_name (xe_name e)) (xe_all (parse_symbol e args)) ++ ".").
+Proof. exact fact_sentence_closed_form. Qed.
+Print Assumptions C15_fact_sentence_closed_form_partial.
+
+(* ... and distinct atoms give distinct sentences: two atoms of the concept that are explained by the same sentence have the
+   same argument values (after the quotes of string arguments are removed: p("a") and p(a) are told apart by no sentence,
+   which is the known finding F-C15-readback-value-not-a-word).  Partial: facts of declared concepts only; sentences with a
+   subject, a verb or objects are compared per atom by the oracle. *)
+Theorem C15_distinct_atoms_distinct_sentences_partial : forall e args1 args2,
+  name_ok (on_name (xe_name e)) = true ->
+  xe_all e <> [] ->
+  length args1 = length (xe_all e) -> length args2 = length (xe_all e) ->
+  Forall (fun a => value_ok (x_value a) = true) (xe_all (parse_symbol e args1)) ->
+  Forall (fun a => value_ok (x_value a) = true) (xe_all (parse_symbol e args2)) ->
+  sentence_of (fact_sig e) args1 = sentence_of (fact_sig e) args2 ->
+  map unquote args1 = map unquote args2.
+Proof.
+  intros e args1 args2 Hn Hne L1 L2 H1 H2 E.
+  rewrite <- (parsed_values e args1 L1), <- (parsed_values e args2 L2). exact (fact_sentences_injective e args1 args2 Hn Hne H1 H2 E).
+Qed.
+Print Assumptions C15_distinct_atoms_distinct_sentences_partial.
+
+(* the hypotheses are met by the movie fact above, and the closed form is the sentence the implementation prints *)
+Example C15_injective_example :
+  let n := fun s => {| on_name := s; on_forms := [s; s; s] |} in
+  let movie := {| xe_name := n "movie"; xe_keys := [ {| x_name := n "id"; x_origin := [n "movie"]; x_value := "_" |} ];
+                  xe_attrs := [ {| x_name := n "title"; x_origin := [n "movie"]; x_value := "_" |} ] |} in
+  let args := ["1"; """jurassicPark"""] in
+  name_ok (on_name (xe_name movie)) = true /\ xe_all movie <> [] /\ length args = length (xe_all movie) /\
+  forallb (fun a => value_ok (x_value a)) (xe_all (parse_symbol movie args)) = true /\
+  map unquote args = ["1"; "jurassicPark"].
+Proof. vm_compute. repeat split. discriminate. Qed.
